@@ -198,6 +198,46 @@ fn main() {
                 "is_clean" => json!({"clean": insts[&iname].topic_is_clean(&topic)}),
                 "sleep_ms" => { std::thread::sleep(std::time::Duration::from_millis(op["ms"].as_u64().unwrap())); json!({"ok": true}) }
                 "list_dir" => json!({"files": list_dir(&dir)}),
+                "corrupt" => {
+                    // damage a file of the (closed) instance: overwrite bytes, truncate, or drop a stray file
+                    use std::io::{Seek, SeekFrom, Write};
+                    let sub = op["subdir"].as_str().map(|s| dir.join(s)).unwrap_or(dir.clone());
+                    let mut files: Vec<PathBuf> = std::fs::read_dir(&sub).map(|rd| rd.flatten().map(|e| e.path()).filter(|p| p.is_file()).collect()).unwrap_or_default();
+                    files.sort();
+                    let target: Option<PathBuf> = match op["file"].as_str() {
+                        Some("index") => Some(sub.join("read_offset_idx_index.db")),
+                        Some("markers") => Some(sub.join("topic_clean_index.db")),
+                        Some(name) if name.starts_with("stray:") => Some(sub.join(&name[6..])),
+                        _ => {
+                            let wal: Vec<&PathBuf> = files.iter().filter(|p| !p.to_string_lossy().ends_with("_index.db") && !p.to_string_lossy().ends_with(".tmp")).collect();
+                            wal.get(op["wal_index"].as_u64().unwrap_or(0) as usize).map(|p| (*p).clone())
+                        }
+                    };
+                    match target {
+                        None => json!({"err": "no such file"}),
+                        Some(path) => {
+                            let mut f = std::fs::OpenOptions::new().read(true).write(true).create(true).open(&path).unwrap();
+                            if let Some(n) = op["truncate"].as_u64() { f.set_len(n).unwrap(); }
+                            if let Some(bytes) = op["bytes"].as_array() {
+                                f.seek(SeekFrom::Start(op["offset"].as_u64().unwrap_or(0))).unwrap();
+                                let b: Vec<u8> = bytes.iter().map(|x| x.as_u64().unwrap() as u8).collect();
+                                f.write_all(&b).unwrap();
+                            }
+                            json!({"ok": true, "path": path.file_name().unwrap().to_string_lossy()})
+                        }
+                    }
+                }
+                "dump" => {
+                    use std::io::{Read, Seek, SeekFrom};
+                    let mut files: Vec<PathBuf> = std::fs::read_dir(&dir).map(|rd| rd.flatten().map(|e| e.path()).filter(|p| p.is_file()).collect()).unwrap_or_default();
+                    files.sort();
+                    let wal: Vec<&PathBuf> = files.iter().filter(|p| !p.to_string_lossy().ends_with("_index.db")).collect();
+                    let mut f = std::fs::File::open(wal[op["wal_index"].as_u64().unwrap_or(0) as usize]).unwrap();
+                    f.seek(SeekFrom::Start(op["offset"].as_u64().unwrap_or(0))).unwrap();
+                    let mut buf = vec![0u8; op["len"].as_u64().unwrap_or(64) as usize];
+                    let _ = f.read(&mut buf);
+                    json!({"bytes": buf})
+                }
                 other => json!({"unsupported_op": other}),
             }
         }));
